@@ -4,6 +4,7 @@ import (
 	"fmt"
 
 	"github.com/scottyw/tetromino/gameboy/controller"
+	"github.com/scottyw/tetromino/gameboy/cpu"
 	"verifmc/explore"
 	"verifmc/machine"
 	"verifmc/ref"
@@ -42,6 +43,18 @@ func (n *c22Node) Apply(ev c22Ev) *explore.Fail {
 	case "write":
 		n.m.Map.Write(0xff00, uint8(ev.Arg))
 		n.mod.Write(uint8(ev.Arg))
+	case "stop":
+		// the CPU executes STOP and is woken by the front end's key callback (the press itself is a separate event):
+		// not a JOYP write, so nothing the statement speaks of may change
+		n.m.Map.Write(0xc000, 0x10)
+		n.m.Map.Write(0xc001, 0x00)
+		n.m.CPU.VSet(cpu.VRegs{SP: 0xdff0, PC: 0xc000})
+		n.m.I.Disable()
+		for i := 0; i < 4; i++ {
+			n.m.CPU.ExecuteMachineCycle()
+		}
+		n.m.CPU.OnInput()
+		n.m.CPU.ExecuteMachineCycle()
 	}
 	if ev.Kind != "read" {
 		return nil
@@ -140,7 +153,7 @@ func init() {
 		for v := 0; v < 256; v++ {
 			evs = append(evs, c22Ev{"write", v})
 		}
-		evs = append(evs, c22Ev{"read", 0})
+		evs = append(evs, c22Ev{"read", 0}, c22Ev{"stop", 0})
 		explore.Product(c.R, "event-bursts", explore.PartOpt{Bound: "bursts of 1..260 key events between two JOYP accesses", Domain: "4 event patterns x select values {10,20,00,30} written before or after the burst"},
 			func(yield func(c22Burst) bool) {
 				for pat := 0; pat < 4; pat++ {
@@ -175,7 +188,7 @@ func init() {
 			Events:     func(*c22Node) []c22Ev { return evs },
 			MaxDepth:   0,
 			MaxDev:     -1,
-			Opt:        explore.PartOpt{Bound: "unbounded depth, closure", Domain: "16 press/release events + 256 JOYP writes + read, from power-on, with an OAM DMA in flight, and with LCD and sound off"},
+			Opt:        explore.PartOpt{Bound: "unbounded depth, closure", Domain: "16 press/release events + 256 JOYP writes + read + the CPU executing STOP, from power-on, with an OAM DMA in flight, and with LCD and sound off"},
 		})
 	})
 }
